@@ -611,6 +611,8 @@ func GenCrawl(t *Tape, o CrawlOpts) *Scenario {
 		}
 		g.Sc.HQ = plan
 		cfg.HQBatchSize = 1 + c.N(4)
+		// cfg.HQBatchConcurrency stays 1: with concurrent sub-fetches the simulated crawl did not stay within the wall-clock
+		// limit (a run of 1.6 million goroutines was seen); see DESIGN.md A.9
 	}
 	if o.Faults && !cfg.UseHQ && (o.Prop == "C01" || o.Prop == "C15" || o.Prop == "C04" || o.Prop == "C02") && c.Chance(1, 4) {
 		// the local queue's database fails now and then (a claim or a delete that has to be repeated): finite, so everything still drains
